@@ -4,13 +4,16 @@ import json, os, re, glob
 def esc(x): return (x or "").replace("\n"," ").replace("|","/")
 def short(x,n=190):
     x=esc(x); return x if len(x)<=n else x[:n-3]+"..."
-r1=[]; r2=[]; r3=[]; r4=[]
+r1=[]; r2=[]; r3=[]; r4=[]; r5=[]
 for d in sorted(glob.glob('/verif/seeded/*/')):
     name=os.path.basename(d.rstrip('/'))
     try: m=json.load(open(d+'meta.json'))
     except Exception: continue
     if name.endswith('_neutralised'): continue
-    if '-4' in name:
+    if '-5' in name:
+        st=m.get('status','?')
+        r5.append(f"| {name} | {short(m.get('summary'))} | {st.replace('_',' ')} | {esc(m.get('detected_by'))} | `{short(m.get('detected_as'),120)}` | {esc(m.get('note'))} |")
+    elif '-4' in name:
         st=m.get('status','?')
         r4.append(f"| {name} | {short(m.get('summary'))} | {st.replace('_',' ')} | {esc(m.get('detected_by'))} | `{short(m.get('detected_as'),120)}` | {esc(m.get('note'))} |")
     elif '-3' in name:
@@ -25,6 +28,7 @@ for d in sorted(glob.glob('/verif/seeded/*/')):
         r1.append(f"| {name} | {short(m.get('summary'))} | {res} (by {by}) | `{short(m.get('detected_as'),120)}` | {esc(m.get('note'))} |")
 from collections import Counter
 c=Counter(json.load(open(d+'meta.json')).get('status') for d in glob.glob('/verif/seeded/*-2?/'))
+c5=Counter(json.load(open(d+'meta.json')).get('status') for d in glob.glob('/verif/seeded/*-5?/'))
 c4=Counter(json.load(open(d+'meta.json')).get('status') for d in glob.glob('/verif/seeded/*-4?/'))
 c3=Counter(json.load(open(d+'meta.json')).get('status') for d in glob.glob('/verif/seeded/*-3?/'))
 text=f'''## 8. Detection results: seeded changes
@@ -101,7 +105,7 @@ changes so far; archived as `/verif/seeded/<id>-3a`, `-3b`, `-3c`.
 '''+"\n".join(r3)+f'''
 
 Status counts: {dict(c3)}. Roughly a third were caught by the checks as they stood, the rest
-needed a strengthening and three are not covered (stated limits, §5) - a much lower as-built rate than in rounds 1 and 2, which is the point of asking
+needed a strengthening and two remain not covered (stated limits, §5; a third, C18-3b, was covered in round 5) - a much lower as-built rate than in rounds 1 and 2, which is the point of asking
 for changes that avoid everything tried before. None of the strengthenings refers to the change
 that prompted it. What round 3 taught:
 (1) **An alphabet entry can be vacuous without anyone noticing** - the scripted "connection
@@ -133,6 +137,40 @@ Status counts: {dict(c4)}. Five of eleven were caught as built - three of them b
 round 3 had added (job cases with a blocked artifact store, timed-out-holder histories, the
 wrong-kind-id sweep), which is the first sign of the strengthenings generalising. One is not
 covered (C05-4a: it needs three concurrent writers at a crash point).
+
+### 8.5 Round 5: two more changes for sixteen properties (a new session, two days later)
+
+Round 5 asked sixteen fresh sub-agents (C01-C06, C09, C10, C12-C19; C07, C08 and C11 had had four
+rounds, C20's remaining gap is a stated limit) for **two** further changes each, with the
+summaries of every earlier change for the property attached. Each worked in a scratch worktree
+of its own (removed afterwards) and saw nothing from /verif. {len(r5)} changes; archived as
+`/verif/seeded/<id>-5a`, `-5b`. For these the demonstration runs (fails with / passes without)
+and the suite runs are the authors', recorded in each meta.json; every patch was applied to
+/repo and the check was run against it here.
+
+| id | seeded change (one line) | status | detected by | detected as | what it took / why not |
+|----|--------------------------|--------|-------------|-------------|------------------------|
+'''+"\n".join(r5)+f'''
+
+Status counts: {dict(c5)}: all 32 are reported now; 10 were caught by the checks as they stood
+(7 of the first 16, 3 of the second 16: the second batch went to the input-enumeration checks,
+whose alphabets are where a new author finds room), 22 needed a strengthening. What round 5
+taught: (1) **An assumption written into a harness is a claim to be attacked** - C06's subscriber
+said "polling order cannot change what is received" and polled eagerly; a change that merges
+history and live frames out of order falsified exactly that sentence. The lazy reader is now
+part of the exploration. (2) **State that several streams share is a collision the driver has to
+force** - a second, longer thread on the shared continuity channel (C06-5a), a second emitter on
+the task's counter (C01-5b), a second file in one checkpoint request (C13-5b), both summary forms
+in one handoff (C10-5a), two cache members lost at once under a running authority (C04-5a). (3)
+**Effects that undo themselves need an observation that remembers** - a temporary file outside
+the root is gone when the call returns; the directory's modification time is not (C13-5a); a
+frame in a writer's buffer is on disk at the end of the run, not at the moment its append
+returned (C03-5b). (4) **Every environment answer 'error' has more than one place** - the log
+append that fails before it writes was in the alphabet; the flush that fails after the frame was
+handed over was not, and trying it found a genuine defect on the unchanged tree (fix 8158cda).
+(5) The seam that stood in for `kill(pid, 0)` hid the code that classifies its answer
+(C18-3b, now covered): **a seam belongs at the system call, not at the function that interprets
+it.**
 
 `tools/seed_regression.sh` re-applies every archived change to /repo, runs the check named in
 its meta.json and reverts; its last output is `/verif/seeded/REGRESSION.md`.
